@@ -78,6 +78,8 @@ pub enum Expr {
   TupElem(String, usize),
   /// `literal ⊕ literal` (used to build failing sources such as `1 + "a"`, `1u8 - 2u8`)
   LitOp(SV, Bop, SV),
+  /// `m{key}`
+  MapGet(String, SV),
 }
 
 #[derive(Clone, Debug, PartialEq, Eq, Hash, Serialize, Deserialize)]
@@ -90,6 +92,8 @@ pub enum Op {
   TupAssign { name: String, pos: usize, e: Expr },
   Destructure { names: Vec<String>, e: Expr },
   Read { e: Expr },
+  /// `m{key} = E`
+  MapAssign { name: String, key: SV, e: Expr },
 }
 
 impl Op {
@@ -105,12 +109,13 @@ impl Op {
       Op::TupAssign { .. } => "tuple-assign",
       Op::Destructure { .. } => "destructure",
       Op::Read { .. } => "read",
+      Op::MapAssign { .. } => "map-assign",
     }
   }
   pub fn target(&self) -> Option<&str> {
     match self {
       Op::Define { name, .. } | Op::Assign { name, .. } | Op::IdxAssign { name, .. } | Op::OpAssign { name, .. }
-      | Op::FieldAssign { name, .. } | Op::TupAssign { name, .. } => Some(name),
+      | Op::FieldAssign { name, .. } | Op::TupAssign { name, .. } | Op::MapAssign { name, .. } => Some(name),
       _ => None,
     }
   }
@@ -127,6 +132,7 @@ impl Op {
       Op::TupAssign { name, pos, e } => format!("{}.{} = {}", name, pos, e.render()),
       Op::Destructure { names, e } => format!("({}) := {}", names.join(", "), e.render()),
       Op::Read { e } => e.render(),
+      Op::MapAssign { name, key, e } => format!("{}{{{}}} = {}", name, render_lit(key), e.render()),
     }
   }
 }
@@ -142,18 +148,19 @@ impl Expr {
       Expr::Field(n, f) => format!("{}.{}", n, f),
       Expr::TupElem(n, k) => format!("{}.{}", n, k),
       Expr::LitOp(a, op, b) => format!("{} {} {}", render_lit(a), op.sym(), render_lit(b)),
+      Expr::MapGet(n, k) => format!("{}{{{}}}", n, render_lit(k)),
     }
   }
   pub fn form(&self) -> &'static str {
     match self {
       Expr::Lit(_) => "lit", Expr::Var(_) => "var", Expr::VarOp(..) => "var-op-lit", Expr::VarVar(..) => "var-op-var",
-      Expr::VarIdx(..) => "var-idx", Expr::Field(..) => "field", Expr::TupElem(..) => "tuple-elem", Expr::LitOp(..) => "lit-op-lit",
+      Expr::VarIdx(..) => "var-idx", Expr::Field(..) => "field", Expr::TupElem(..) => "tuple-elem", Expr::LitOp(..) => "lit-op-lit", Expr::MapGet(..) => "map-get",
     }
   }
   pub fn vars(&self) -> Vec<&str> {
     match self {
       Expr::Lit(_) | Expr::LitOp(..) => vec![],
-      Expr::Var(n) | Expr::VarOp(n, ..) | Expr::Field(n, _) | Expr::TupElem(n, _) => vec![n],
+      Expr::Var(n) | Expr::VarOp(n, ..) | Expr::Field(n, _) | Expr::TupElem(n, _) | Expr::MapGet(n, _) => vec![n],
       Expr::VarVar(a, _, b) => vec![a, b],
       Expr::VarIdx(n, s) => {
         let mut v = vec![n.as_str()];
@@ -177,6 +184,7 @@ fn render_f64(x: f64) -> String {
 pub fn render_lit(v: &SV) -> String {
   match v {
     SV::F64(b) => render_f64(f64::from_bits(*b)),
+    SV::F32(b) => format!("{}<f32>", render_f64(f32::from_bits(*b) as f64)),
     SV::Int(k, x) => if k.is_unsigned() { format!("{}{}", x, k.name()) } else { format!("{}<{}>", x, k.name()) },
     SV::Bool(b) => b.to_string(),
     SV::Str(s) => format!("\"{}\"", s),
@@ -192,6 +200,7 @@ pub fn render_lit(v: &SV) -> String {
     SV::Record(f) => format!("{{{}}}", f.iter().map(|(n, _, v)| format!("{}: {}", n, render_lit(v))).collect::<Vec<_>>().join(", ")),
     SV::Tuple(e) => format!("({})", e.iter().map(render_lit).collect::<Vec<_>>().join(", ")),
     SV::Set(_, e) => format!("{{{}}}", e.iter().map(render_lit).collect::<Vec<_>>().join(", ")),
+    SV::Map(kv) => format!("{{{}}}", kv.iter().map(|(k, v)| format!("{}: {}", render_lit(k), render_lit(v))).collect::<Vec<_>>().join(", ")),
     SV::Table(rows, cols) => {
       let mut s = format!("|{}|", cols.iter().map(|(n, k, _)| format!("{}<{}>", n, k)).collect::<Vec<_>>().join(" "));
       for i in 0..*rows {
@@ -235,6 +244,11 @@ pub fn tree_matches(op: &Op, tree: &Program) -> bool {
     (Op::Destructure { names, .. }, MechCode::Statement(Statement::TupleDestructure(t))) =>
       t.vars.iter().map(|v| v.to_string()).collect::<Vec<_>>() == *names,
     (Op::Read { .. }, MechCode::Expression(_)) => true,
+    (Op::MapAssign { name, .. }, MechCode::Statement(Statement::VariableAssign(a))) =>
+      a.target.name.to_string() == *name && match &a.target.subscript {
+        Some(s) if s.len() == 1 => matches!(&s[0], Subscript::Brace(b) if b.len() == 1),
+        _ => false,
+      },
     _ => false,
   }
 }
